@@ -2,6 +2,7 @@
 #include <symengine/add.h>
 #include <symengine/mul.h>
 #include <symengine/functions.h>
+#include <symengine/logic.h>
 #include <symengine/visitor.h>
 
 #include <queue>
@@ -511,7 +512,11 @@ void tree_cse(vec_pair &replacements, vec_basic &reduced_exprs,
         }
 
         if (seen_subexp.find(expr) != seen_subexp.end()) {
-            to_eliminate.insert(expr);
+            // A Boolean (e.g. the condition of a Piecewise) cannot be
+            // replaced by a Symbol, which is not a Boolean
+            if (not is_a_Boolean(*expr)) {
+                to_eliminate.insert(expr);
+            }
             return;
         }
 
